@@ -463,6 +463,7 @@ class Histogram1D(ObjectWithBinning, HistogramBase):
             dtype=np.int64 if self.dtype.kind in "iu" else self.dtype,
             weights=weights_array,
             validate_bins=False,
+            keep_missed=self.keep_missed,
         )
         self._add_contents(
             frequencies,
@@ -552,6 +553,7 @@ class Histogram1D(ObjectWithBinning, HistogramBase):
                 validate_bins=validate_bins,
                 already_sorted=already_sorted,
                 dtype=dtype,
+                keep_missed=keep_missed,
             )
             if not keep_missed:
                 underflow = 0.0
